@@ -1877,6 +1877,8 @@ def r6(ctx):
                     rest = [site]
                 (ra, _t1), (rb, _t2) = real.block(rest), hyp.block(rest)
                 same = ra == rb
+                while ra and rb and ra[-1] == rb[-1]:      # what follows either way is of no interest in the message
+                    ra, rb = ra[:-1], rb[:-1]
                 how = (f"what runs for '' is {('; '.join(ra) or 'nothing')[:160]!r}, for any other present value "
                        f"{('; '.join(rb) or 'nothing')[:160]!r}")
             labs = k.label.split("/")
